@@ -78,6 +78,13 @@ Context {S V L I P X : Type} (K : VSp S V L I) (A : AOps S V L I P) (nd : X -> n
     A_b = ~phi A_parent + H udot_b + a_b ;  F_b = Mk A_b + b_b - Fapplied_b + sum phi F_child ;  tau_b = ~H F_b - f_b *)
 Definition rnea_force (xv : X * V) : V :=
   vsub K A (vadd K (mapply K (n_M (nd (fst xv))) (snd xv)) (d_g (dy (fst xv)))) (d_F (dy (fst xv))).
+(** calcTreeEquivalentMobilityForces (calcEquivalentJointForces per node): the mobility forces that replace the applied
+    body forces and the inertial forces of the current velocities:  z = F - (Mk A_bias + b) + sum phi z_child,  f = ~H z,
+    with A_bias the body accelerations at udot = 0 (the accumulated Coriolis accelerations) *)
+Definition equiv_force (xv : X * V) : V :=
+  vsub K A (d_F (dy (fst xv))) (vadd K (mapply K (n_M (nd (fst xv))) (snd xv)) (d_g (dy (fst xv)))).
+Definition equivf (t : tree X) : tree ((X * V) * list S) :=
+  mulJt K (fun xv => nd (fst xv)) equiv_force (kin K nd (fun _ => []) (fun x => d_a (dy x)) (vzero K) t).
 Definition rnea_acc (ud : X -> list S) (t : tree X) : tree (X * V) := kin K nd ud (fun x => d_a (dy x)) (vzero K) t.
 Definition rnea (ud : X -> list S) (t : tree X) : tree (((X * V) * V) * list S) :=
   tmap (fun xz => (xz, lsub K A (Htmul K (n_H (nd (fst (fst xz)))) (snd xz)) (d_f (dy (fst (fst xz))))))
@@ -254,6 +261,8 @@ Definition out_minv (t : tree cbx) : list (nat * list T) :=
 (** inverse dynamics of the model's own forward dynamics (zero over R by theorem fd_then_rnea_zero) *)
 Definition out_rnea_of_fd (t : tree cbx) : list (nat * list T) :=
   map (fun r => (c_idx (w_x (fst (fst (fst r)))), snd r)) (flatten (rnea_of_fd KKc AAc c_nd c_dy t)).
+Definition out_equiv (t : tree cbx) : list (nat * list T) :=
+  map (fun r => (c_idx (fst (fst r)), snd r)) (flatten (equivf KKc AAc c_nd c_dy t)).
 (** mobilizer reactions at the body origins by the two routes (equal over R by theorem reaction_routes_agree) *)
 Definition out_react_art (t : tree cbx) : list (nat * SVt) :=
   map (fun r => (c_idx (w_x (fst r)), snd (snd r))) (flatten (react_art KKc AAc c_nd c_dy t)).
